@@ -48,11 +48,15 @@ type pRun struct {
 	ioMu         sync.Mutex
 
 	// outcome of Run (guarded by h.mu)
-	runReturned bool
-	runErr      error
-	runModel    tea.Model
-	runPanic    string
-	outAtReturn int
+	runReturned  bool
+	runErr       error
+	runModel     tea.Model
+	runPanic     string
+	outAtReturn  int
+	canaryOn     bool
+	canaryDone   chan struct{}
+	canaryStolen int
+	canaryN      int
 
 	watchdog time.Duration
 }
@@ -303,6 +307,38 @@ func (r *pRun) startRun() {
 	}()
 }
 
+func (r *pRun) startFdCanary(d time.Duration) {
+	h := r.h
+	h.mu.Lock()
+	r.canaryOn = true
+	h.mu.Unlock()
+	r.canaryDone = make(chan struct{})
+	go func() {
+		defer close(r.canaryDone)
+		end := time.Now().Add(d)
+		stolen, n := 0, 0
+		for time.Now().Before(end) {
+			fd, err := unix.Open("/dev/null", unix.O_RDONLY|unix.O_CLOEXEC, 0)
+			if err != nil {
+				continue
+			}
+			n++
+			time.Sleep(150 * time.Microsecond)
+			var st unix.Stat_t
+			if err := unix.Fstat(fd, &st); err == unix.EBADF {
+				stolen++
+				continue
+			}
+			if err := unix.Close(fd); err == unix.EBADF {
+				stolen++
+			}
+		}
+		h.mu.Lock()
+		r.canaryStolen, r.canaryN = stolen, n
+		h.mu.Unlock()
+	}()
+}
+
 func (r *pRun) startSenders() {
 	h := r.h
 	h.mu.Lock()
@@ -525,6 +561,11 @@ func (r *pRun) step(i int, st pStep) bool {
 		return pTimed(deadline, r.p.Quit)
 	case "kill":
 		r.startAPI("kill", 1, i)
+	case "fd-canary":
+		// for st.Us microseconds keep the lowest free descriptor number occupied by a descriptor of our own and watch it:
+		// if somebody closes a descriptor a second time, the number it hits is ours (the first close made it the lowest
+		// free one)
+		r.startFdCanary(time.Duration(st.Us) * time.Microsecond)
 	case "cancel":
 		if r.cancel == nil {
 			h.addErr("step %d: cancel without ctx", i)
@@ -763,6 +804,13 @@ func runProgramScenario(sc *pScenario) (res pResult) {
 	res.Output = pToInts(out)
 	if sc.Writes {
 		res.Writes = h.out.Writes()
+	}
+	if r.canaryDone != nil {
+		<-r.canaryDone
+		h.mu.Lock()
+		st := r.canaryStolen
+		res.FdStolen, res.FdCanaries = &st, r.canaryN
+		h.mu.Unlock()
 	}
 	if r.ptyS != nil && !r.ptyHung {
 		t1, err := getTermios(r.ptyS)
